@@ -3,6 +3,7 @@ import Driver.Entry
 import Driver.Secure
 import Driver.DelayedValidate
 import Driver.C20
+import Driver.C18
 
 def main (args : List String) : IO UInt32 := do
   let stdin ← IO.getStdin
@@ -12,4 +13,5 @@ def main (args : List String) : IO UInt32 := do
   | ["secure"] => SecureVal.main stdin
   | ["delayed"] => DelayedVal.main stdin
   | ["c20"] => C20Val.main stdin
+  | ["c18"] => C18Val.main stdin
   | _ => do IO.eprintln "usage: midriver <trval|entry|...>"; return 2
